@@ -538,6 +538,13 @@ func (g *G) listCompr() Item {
 
 func (g *G) mapCompr() Item {
 	ps := g.phrases(nil, 2, true)
+	for i := range ps {
+		// a map is ranged over in random order: the comprehension's key has to be the map's own key,
+		// otherwise two iterations may write the same key and the survivor depends on that order
+		if ps[i].kind == "map" && ps[i].key == "" {
+			ps[i].key, ps[i].blankKey = g.Var("k"), false
+		}
+	}
 	useAll(ps)
 	vars := allIntVars(ps, nil)
 	k, v := g.IntExpr(vars, 1), g.IntExpr(vars, 2)
